@@ -379,9 +379,15 @@ func (s *c12Sink) exec(k, v any) {
 	s.mu.Unlock()
 }
 
-func (s *c12Sink) collect(base int) string {
-	if !verifh.SettleGoroutines(base, 5*time.Second) {
+// collect joins the callback goroutines of the last operation (the goroutine count is back at its resting
+// value *base) and returns what they were handed. A resting value measured too high (some unrelated goroutine
+// was still exiting) corrects itself: the count can never be below the true resting value.
+func (s *c12Sink) collect(base *int) string {
+	if !verifh.SettleGoroutines(*base, 5*time.Second) {
 		return "TIMEOUT-goroutines"
+	}
+	if n := runtime.NumGoroutine(); n < *base {
+		*base = n
 	}
 	s.mu.Lock()
 	out := s.fired
@@ -521,7 +527,7 @@ func TestVerifC12WB(t *testing.T) {
 			default:
 				return "bad-op"
 			}
-			return sink.collect(base)
+			return sink.collect(&base)
 		}
 		return step, func() { verifh.SettleGoroutines(base, time.Second) }
 	})
@@ -650,6 +656,7 @@ func TestVerifC12(t *testing.T) {
 				if !verifh.SettleGoroutines(base-1, 2*time.Second) {
 					return "stopped LOOP-ALIVE"
 				}
+				base--
 				return fmt.Sprintf("stopped %d", stops())
 			default:
 				return "bad-op"
@@ -664,7 +671,7 @@ func TestVerifC12(t *testing.T) {
 			if hung {
 				return "TIMEOUT-loop"
 			}
-			return sink.collect(base)
+			return sink.collect(&base)
 		}
 		return step, func() {
 			if !stopped {
